@@ -120,7 +120,7 @@ TECH_ADD = {
  "C03": "; file-system sources whose Read fails after a successful Open (a directory in place of the file, a caller's fs.FS reporting an error mid-way)",
  "C05": "; invisible and space runes (U+00A0, U+3000, U+200B, U+FEFF) in quoted local parts; the exported smtp.Client API driven directly with raw strings (Hello, Verify, SetDSN*Option, Mail, Rcpt) against a command-sequence oracle",
  "C06": "; blind copies for the mailbox of a visible recipient (also in another capitalisation)",
- "C07": "; authentication replaced through SetSMTPAuth/SetSMTPAuthCustom after a password-revealing one; a second DialWithContext without closing the first connection, which is judged under the tightened policy from that moment on",
+ "C07": "; authentication replaced through SetSMTPAuth/SetSMTPAuthCustom after a password-revealing one; a second DialWithContext without closing the first connection, which is judged under the tightened policy from that moment on; AUTH lists carrying the library's own type names; the package-level QuickSend",
  "C08": "; the signer configured again between two renders (other key type, intermediate added/dropped, same pair)",
  "C10": "; library-generated extra fields (importance, bulk, organisation, MDN, custom X- headers) must survive the round trip without being multiplied",
  "C11": "; the caller comes back to the buffers/readers it attached between two renders",
